@@ -56,7 +56,9 @@ def gen_case(rng: random.Random, tier: str):
             k = rng.randint(1, min(4, n - i))
             mode = "batch" if rng.random() < 0.8 else "batch_exc"  # batch_exc: the caller's code raises inside the update block
         uses = [rng.choice(["parse", "default", "dumps", "len", "eq", "parse_fail", "array_of", "sizeof", "sizeof"]) for _ in range(rng.randint(0, 3))]
-        steps.append({"n": k, "mode": mode, "uses": uses, "extra_commit": rng.random() < 0.2})
+        steps.append({"n": k, "mode": mode, "uses": uses, "extra_commit": rng.random() < 0.2,
+                      # the step happens while an update block of ANOTHER, unrelated structure is open
+                      "inside_other_block": rng.random() < 0.15})
         i += k
     # explicit field offsets (Python API only: Field(..., offset=) / add_field(..., offset=)): per field None (computed),
     # a forward gap, or an absolute position at/before an earlier field (0 = the structure start)
@@ -289,6 +291,14 @@ def run_case(case, stats):
     for step in steps:
         chunk = harvested[idx: idx + step["n"]]
         idx += step["n"]
+        other_ctx = None
+        if step.get("inside_other_block"):
+            if "OtherC18" not in csC.typedefs:
+                csC.add_type("OtherC18", csC._make_struct("OtherC18", [], align=cfg["align"]))
+            other_ctx = csC.OtherC18.start_update()
+            other_ctx.__enter__()
+            csC.OtherC18.add_field(f"o{idx}", csC.uint8)
+            stats.count("probe.step_inside_update_block_of_another_structure")
         try:
             if step["mode"] == "single":
                 for name, t, bits in chunk:
@@ -311,6 +321,9 @@ def run_case(case, stats):
         except Exception as ex:  # noqa: BLE001
             # e.g. a bit-field run cut in a way add_field rejects: outside the statement
             raise Discard("add_field_rejected_" + type(ex).__name__)
+        finally:
+            if other_ctx is not None:
+                other_ctx.__exit__(None, None, None)
         pattern.append((step["mode"], step["n"], tuple(step["uses"])))
         for u in step["uses"]:
             _use(st, u, inputs[0] if inputs else b"\x00" * 8)
